@@ -170,7 +170,9 @@ def reference_run(world: World, opts: dict, cache: dict, **plan: typing.Any) -> 
     Returns {"ok": bool, "files": {rel: (sha, mode)}, "res": invocation result}.
     """
     inv = world.invocation(opts, **plan)
-    key = repr((inv["argv"], inv["cwd"], inv["umask"], sorted(plan.items())))
+    # (everything that decides the outcome: the command line, the ambient state, and what the option set adds to the
+    # plan without showing on the command line - the style of the external program, what the support package ships)
+    key = repr((inv["argv"], inv["cwd"], inv["umask"], sorted(plan.items()), inv.get("extprog"), inv.get("extra_support_files")))
     if key in cache:
         return typing.cast(dict, cache[key])
     out = opts.get("out_abs") or world.out_dir
